@@ -5,12 +5,18 @@ ROOT = os.path.dirname(os.path.dirname(os.path.abspath(__file__)))
 props = [json.loads(l) for l in open(os.path.join(ROOT, 'properties.jsonl'))]
 AI = 'abstract interpretation of clang-14 LLVM IR'
 CHECKS = {
+ 'C01': dict(cat='proof', text='kernel-mode abstract interpretation of the inline-asm add/sub/mul templates (x86 subset semantics over exact integer polynomials with carry partitioning) and of inc/dec: output = a o b mod p for all 2^128 operand pairs under all five aliasing patterns; R-ASM lint of each template; derived API (square, neg, mulScalar, returning overloads, operators) in wrapper mode',
+             note='trusts the modelled semantics of 10 x86 mnemonics and clang lowering; USE_MONTGOMERY=0 as built; refutations carry an exact-arithmetic witness', tech='abstract interpretation (limb-split integer polynomials + intervals + carry trace partitioning) incl. x86 asm templates; asm constraint lint'),
+ 'C02': dict(cat='proof', text='kernel-mode abstract interpretation of all 18 contracted AVX2 kernels (14 field, 3 exact-product, 1 dot) per lane and per precondition box: out = field op mod p / exact product over Z with no intermediate wrap, outputs within the contract post-range',
+             note='trusts clang lowering of intrinsics to generic IR, opt sroa/early-cse, glv kernel semantics; contracts transcribed from the header comments (glv/contracts.py)', tech='abstract interpretation (limb-split integer polynomials + intervals + carry trace partitioning)'),
  'C06': dict(cat='proof', text='the three full-result permutations interpreted abstractly on symbolic states (x^7 S-boxes as AC-normalised power products of hash-consed linear forms): all outputs equal the specified 4+22+4-round permutation written in the checker, hence agree; AVX512 per interleaved state; lane-kernel preconditions at all call sites; tables canonical / 8-bit / transposed-flattening relations; hash* = first four elements',
              note='round constants and matrices are taken from the library tables (no independent source in the repository); lane kernels by contract (C01/C02/C11)', tech=AI + ': residue normal forms with opaque power products; sibling agreement'),
  'C07': dict(cat='proof', text='linear_hash_seq/linear_hash/linear_hash_avx512 interpreted for every length 0..256 (quick) / 0..2048 (thorough) with the permutation opaque: digest cells and input read set equal the reference sponge; universal in element values, bounded in length',
              note='bounded in the length (all residues mod 8 and both sides of the pass-through threshold covered many times); permutation opaque (C06)', tech=AI + ' with shape parameters fixed by constant propagation (bounded-shape mode)'),
  'C09': dict(cat='proof', text='scalar cubic-extension routines interpreted abstractly and expanded as polynomials mod p; equality with schoolbook arithmetic in F_p[x]/(x^3-x-1) under all aliasing patterns; inv by the cofactor identity; isOne by exhaustive path exploration over its residue tests; batchInverse over opaque extension elements for lengths in a stated bound (1..32 quick, 1..256 thorough)',
              note='trusts clang lowering, glv IR semantics, scalar field contracts (C01), irreducibility of x^3-x-1; batchInverse bounded in length', tech=AI + ': polynomial normal forms (ring identities), path exploration for predicates'),
+ 'C11': dict(cat='proof', text='as C02 for the 14 contracted AVX512 kernels on the -D__AVX512__ configuration, all 8 lanes',
+             note='as C02; the AVX512 code is never compiled by the shipped test build', tech='abstract interpretation (limb-split integer polynomials + intervals + carry trace partitioning)'),
  'C13': dict(cat='proof', text='every AVX2 dot/spmv/mmult kernel interpreted on symbolic lanes: result lanes have the normal form of the documented matrix product mod p; coefficient reads inside the declared array; lane-kernel typestate preconditions at each call site',
              note='lane kernels replaced by their contracts (proved under C02); 8-bit variants under the documented <2^8 precondition', tech=AI + ': residue normal forms + representation typestate at call sites'),
  'C14': dict(cat='proof', text='every AVX512 dot/spmv/mmult kernel interpreted on two interleaved symbolic states: per-state matrix product normal forms and representation-typestate preconditions at every lane-kernel call site (the rule that exposed the add_avx512_b_c defect)',
